@@ -223,6 +223,10 @@ class SymDomain(ConcDomain):
         if e["k"] == "Call" and base in ("std::min", "std::max") and len(args) == 2:
             a, b = it.rvalue(args[0], fr), it.rvalue(args[1], fr)
             if is_sym(a) or is_sym(b):
+                if not isinstance(a, Lin) and not isinstance(b, Lin):
+                    A_, B_ = dag.lift(a), dag.lift(b)
+                    if A_.op == "c" and B_.op == "c":
+                        return dag.const(min(A_.a, B_.a) if base == "std::min" else max(A_.a, B_.a))
                 raise AnalysisBroken("min/max of symbolic values at %s" % ir.locstr(e))
         if e["k"] == "Construct" and e.get("t", "").startswith("std::array<std::pair<") and not args:
             return self.default_value(e["t"], {"name": "array"}, fr)
